@@ -6,8 +6,8 @@
    Model/Literal.v (PRQL literal spellings -> values -> SQL text).
    Tables: Gen/GenLiteral.v, regenerated from /repo on every run (vplib/props/c08_gen.py). *)
 From Coq Require Import List NArith ZArith Bool.
-From PV Require Import Lib.ListX Model.Escape Model.SqlLex Model.SqlLexBq Model.Literal Model.FloatFmt
-                       Proofs.EscapeProofs Proofs.SqlLexBqProofs Proofs.LiteralProofs Proofs.FloatFmtProofs Gen.GenLiteral.
+From PV Require Import Lib.ListX Model.Escape Model.SqlLex Model.SqlLexBq Model.Interval Model.Literal Model.FloatFmt
+                       Proofs.EscapeProofs Proofs.SqlLexBqProofs Proofs.LiteralProofs Proofs.FloatFmtProofs Proofs.IntervalProofs Gen.GenLiteral.
 Import ListNotations.
 Local Open Scope N_scope.
 
@@ -15,6 +15,8 @@ Notation tbl := GenLiteral.escape_table.
 Notation rows := GenLiteral.based_rows.
 Notation wt := GenLiteral.writer_backslash_doubling.
 Notation rt := GenLiteral.reader_backslash_escape.
+Notation iunits := GenLiteral.interval_unit_names.
+Notation ifields := GenLiteral.interval_fields.
 
 (* ---------------------------------------------------------------- table obligations (what the source says now) *)
 
@@ -279,6 +281,46 @@ Theorem float_rejected_iff_overflow : forall m e, emit_float_rust m e = None <->
 Proof. intros m e. unfold emit_float_rust. destruct (overflows m e); split; congruence. Qed.
 Print Assumptions float_rejected_iff_overflow.
 
+(* interval literals  <integer><unit>  (Model/Interval.v).  Tables regenerated from the source: the lexer's unit names,
+   translate_literal's unit -> DateTimeField table, the per-dialect interval_quoting_style. *)
+Theorem c08_interval_tables_ok :
+  forallb (fun kv => field_ok (fst (snd kv))) ifields && units_covered iunits ifields = true.
+Proof. vm_compute. reflexivity. Qed.
+Print Assumptions c08_interval_tables_ok.
+
+(* whatever the dialect's styles, the emitted text is INTERVAL followed by  n FIELD ,  'n FIELD'  or  'n' FIELD :
+   words, one number or one string token -- for every count and every unit of the table *)
+Theorem interval_literal_tokens : forall d styles n unit t,
+  interval_text ifields styles (digits_of n) unit = Some t ->
+  exists st field, sql_lex d t = interval_tokens_of st (digits_of n) field.
+Proof.
+  intros d styles n unit t. apply interval_text_tokens.
+  pose proof c08_interval_tables_ok as H. apply andb_true_iff in H as [H _]. exact H.
+Qed.
+Print Assumptions interval_literal_tokens.
+
+(* every unit the lexer accepts is supported by translate_literal *)
+Theorem interval_unit_always_supported : forall styles dg u, In u iunits -> interval_text ifields styles dg u <> None.
+Proof.
+  intros styles dg u. apply interval_unit_supported.
+  pose proof c08_interval_tables_ok as H. apply andb_true_iff in H as [_ H]. exact H.
+Qed.
+Print Assumptions interval_unit_always_supported.
+
+(* the count.  FULL STATEMENT (false, finding C08-N1-interval-count-overflow):
+     lex_interval iunits (ds ++ u) = Some (LInterval n u, r) -> n = the decimal value of ds.
+   A count beyond i64::MAX is not an error: number_str.parse::<i64>().unwrap_or(1) reads it as 1 *)
+Theorem interval_count_refuted :
+  exists ds u, lex_interval iunits (ds ++ u) = Some (LInterval 1 u, []) /\ base_value 10 ds = 9223372036854775808.
+Proof. exists [57;50;50;51;51;55;50;48;51;54;56;53;52;55;55;53;56;48;56], [100;97;121;115]. vm_compute. split; reflexivity. Qed.
+Print Assumptions interval_count_refuted.
+
+Theorem interval_count_partial : forall s n u r, lex_interval iunits s = Some (LInterval n u, r) ->
+  exists ip r1, parse_integer s = Some (ip, r1) /\ match_unit iunits r1 = Some (u, r) /\
+                (base_value 10 (no_us ip) <= I64_MAX -> n = base_value 10 (no_us ip)).
+Proof. exact (lex_interval_count iunits). Qed.
+Print Assumptions interval_count_partial.
+
 Theorem bool_roundtrip : forall d b, sql_lex d (emit_bool b) = [TWord (emit_bool b)].
 Proof. exact LiteralProofs.bool_roundtrip. Qed.
 Print Assumptions bool_roundtrip.
@@ -343,6 +385,11 @@ Proof. vm_compute. reflexivity. Qed.       (* 1.5  1000.0  1e16  0.0001  1e-5  6
 Example c08_ex_float_class : in_class 123456789012345 (-20) = true /\ in_class 1234567890123456 0 = false
                              /\ overflows 17976931348623157 292 = false /\ overflows 17976931348623159 292 = true /\ overflows 1 999999 = true
                              /\ emit_float_rust 1 400 = None /\ emit_float_rust 25 (-1) = Some [50;46;53].
+Proof. vm_compute. repeat split; reflexivity. Qed.
+Example c08_ex_interval :
+  interval_text ifields (IValueAndUnitQuoted, IValueQuoted) (digits_of 3) [109;111;110;116;104;115] = Some [73;78;84;69;82;86;65;76;32;39;51;39;32;77;79;78;84;72]   (* redshift: INTERVAL '3' MONTH *)
+  /\ interval_text ifields (IValueAndUnitQuoted, IValueQuoted) (digits_of 3) [119;101;101;107;115] = Some [73;78;84;69;82;86;65;76;32;39;51;32;87;69;69;75;39]   (* INTERVAL '3 WEEK' *)
+  /\ lex_interval iunits [49;95;48;100;97;121;115;32] = Some (LInterval 10 [100;97;121;115], [32]).                                                        (* 1_0days *)
 Proof. vm_compute. repeat split; reflexivity. Qed.
 Example c08_ex_context : closed_prefix std_sql [83;69;76;69;67;84;32] = true.                       (* "SELECT " *)
 Proof. vm_compute. reflexivity. Qed.
